@@ -178,7 +178,7 @@ def families(tier='quick', seed=0):
     lists = [
         ['a', 'b'], ['a*', '*b'], ['*a*', 'b'], ['a', 'ia'], ['ia', 'ib*'], ['a*', '*a', '*a*', 'a'],
         ['a', ''], ['*', 'a'], ['?a', '?b'], ['?a', 'b'], ['i?a', 'i?b'], ['a', '?a', 'ib'],
-        ['ab', 'b'], ['*ab', '*b'], ['a*', 'ab*'],
+        ['ab', 'b'], ['*ab', '*b'], ['a*', 'ab*'], ['a*', '*b', 'ic'], ['a*', '*b', '?c'], ['ia', 'ib', 'c', 'd'],
     ]
     if tier != 'quick':
         lists += [['a', 'b', 'c'], ['a*', 'b*', '*c', '*d*'], ['ia*', 'i*b', 'c'], ['?a', '?b', '?c'], ['*a*', '*b*', '*ab*'],
